@@ -161,6 +161,57 @@ def traced(ctx, cwd, args):
     return rc, out, err, opened
 
 
+def nested_roots_pass(ctx, rng, n, dist):
+    """a tree r/a/b with files at every level and a decoy next to r; 1-3 SetRoot calls (narrowing, widening, sideways,
+    repeated), then one file merged: the library must refuse exactly where Model.Root.set_roots does, and what it reads
+    must be what root_open under the final root returns"""
+    import yaml
+    base = os.path.join(ctx.work, "nested")
+    shutil.rmtree(base, ignore_errors=True)
+    os.makedirs(os.path.join(base, "r", "a", "b"))
+    os.makedirs(os.path.join(base, "r2"))
+    files = {"r/top.yaml": {"top": 1}, "r/a/mid.yaml": {"mid": 1}, "r/a/b/in.yaml": {"in": 1}, "r2/decoy.yaml": {"secret": "S1"}, "r/a/b/deep.yaml": {"deep": 1}}
+    for rel, doc in files.items():
+        open(os.path.join(base, rel), "w").write(gen.emit("yaml", [doc]))
+    os.symlink("../top.yaml", os.path.join(base, "r", "a", "uplink.yaml"))       # a link that leaves r/a but stays in r
+    fsv = snapshot_fs(base)
+    roots_pool = ["r", "r/a", "r/a/b", ".", "r2", "r/a/..", "r/", "./r/a"]
+    file_pool = ["r/top.yaml", "r/a/mid.yaml", "r/a/b/in.yaml", "r/a/b/deep.yaml", "r2/decoy.yaml", "r/a/uplink.yaml"]
+    cases, mcases = [], []
+    for i in range(n):
+        r = rng.fork("n%d" % i)
+        roots = [r.pick(roots_pool) for _ in range(1 + r.below(3))]
+        f = r.pick(file_pool)
+        cases.append(["setroots", base, roots, f])
+        mcases.append(["setroots", fsv, comps(base), [comps(os.path.join(base, x)) for x in roots], comps(os.path.join(base, f))])
+    im = ctx.impl(cases)
+    mo = ctx.model(mcases)
+    for c, a, m in zip(cases, im, mo):
+        ma = "setroot-err" if (isinstance(m, list) and m and m[0] == "setroot-err") else ("ok" if m[0] == "ok" else "err")
+        aa = "setroot-err" if (isinstance(a, list) and a and a[0] == "setroot-err") else ("ok" if isinstance(a, list) and a and a[0] == "ok" else "err")
+        k = "nested_" + ma
+        dist[k] = dist.get(k, 0) + 1
+        why = None
+        # a leak: the library read a file that is not under the FIRST root that was set (or the decoy), where the model refuses
+        first = comps(os.path.join(base, c[2][0]))
+        under_first = comps(os.path.join(base, c[3]))[:len(first)] == first
+        leak = aa == "ok" and ma != "ok" and (("S1" in str(a[1])) or not under_first)
+        if leak:
+            why = "after SetRoot %r the library read %s, which is outside the first root (the model: %s)" % (c[2], c[3], ma)
+        elif aa != ma:
+            why = "SetRoot %r then %s: library %s, Model.Root %s" % (c[2], c[3], aa, ma)
+        elif aa == "ok":
+            want = [d for d in yaml.safe_load_all(m[1])]
+            got = core.parse_json_docs(a[1])
+            if not veq(got, want):
+                why = "SetRoot %r then %s: library reads %s, the model %s" % (c[2], c[3], hist.short(got), hist.short(want))
+        if why and len(ctx.violations) < 5:
+            ctx.violations.append({"name": "nested-" + core.vhash(c[2:]), "property": "C18", "kind": "failing-input" if leak else "no-failing-input-found",
+                                   "theorem": "C18_nested_roots (Properties/C18.v) is about Model.Root.set_roots/root_open; correspondence with Parser.SetRoot broke",
+                                   "why": why, "roots": c[2], "file": c[3], "class": "c18-nested-roots"})
+    return n
+
+
 def run(ctx):
     n = ctx.n(40, 400)
     rng = core.Rng(ctx.seed)
@@ -248,7 +299,9 @@ def run(ctx):
             ctx.violations.append({"name": "case-%s-%s-%s" % (a, s, outname), "property": "C18", "kind": "failing-input", "why": why, "attack": a, "root_spelling": s, "outside_name": outname,
                                    "runs": [{"rc": r[0], "stdout": r[1].decode("utf-8", "replace")[:300], "stderr": r[2][-200:], "opened": r[3]} for r in res],
                                    "class": "c18-escape"})
-    # library: nested SetRoot through the harness
+    # library: sequences of nested SetRoot calls, then a file, against Model.Root.set_roots / root_open
+    evals += nested_roots_pass(ctx, rng.fork("nested"), ctx.n(40, 400), dist)
+    # library: nested SetRoot through the harness (fixed scenarios)
     lib = ctx.impl([["setroot", os.path.join(ctx.work, "lib")]])
     dist["nested_setroot"] = core.to_jsonable(lib[0])
     if isinstance(lib[0], list) and lib[0] and lib[0][0] == "violation" and len(ctx.violations) < 5:
